@@ -401,7 +401,6 @@ theorem child_pend (f : Nat)
     | excluded => exact absurd rfl hexcl
     | nofuel => exact absurd rfl (hok .nofuel)
     | err => exact absurd rfl (hok .err)
-    | diverge => exact absurd rfl (hok .diverge)
     | cycle =>
       by_cases hthrow : o.throwCycle = true
       · simp only [childOf, hthrow, if_true] at hok
@@ -411,12 +410,10 @@ theorem child_pend (f : Nat)
         rw [hr] at hσ
         simp only at hσ
         subst hσ
-        cases hc : cycleSch o e with
-        | none =>
-          simp only [childOf, ht', hc, Bool.false_eq_true, if_false] at hok
-          exact absurd rfl (hok .diverge)
-        | some s0 =>
-          simp only [childOf, ht', hc, Bool.false_eq_true, if_false, note] at ha ⊢
+        by_cases hrec : spineRecs e = true
+        · simp only [childOf, ht', hrec, Bool.false_eq_true, if_false, if_true, note]
+          exact ⟨hp, fun e he => he⟩
+        · simp only [childOf, ht', hrec, Bool.false_eq_true, if_false, note] at ha ⊢
           have hsp : spineNamed e = true := by
             simp only [addComp] at ha
             cases hs : spineNamed e with
@@ -506,7 +503,7 @@ theorem gen_pend : ∀ (f : Nat),
                 rcases h3 with h3 | h3
                 · exact h3
                 · exact absurd (GoType.beq_eq _ _ h3) h4
-            | cycle | nofuel | excluded | err | diverge => simp [finish] at hs
+            | cycle | nofuel | excluded | err => simp [finish] at hs
       · -- genBody
         intro ps top nm nl b B0 σ ha hch hl hel hk hp s hs
         cases b with
@@ -655,7 +652,6 @@ theorem gen_pend : ∀ (f : Nat),
             | ok s0 => simp only [childOf]; exact setProp_ne_nil _ _ _
             | nofuel => exact absurd rfl (hok .nofuel)
             | err => exact absurd rfl (hok .err)
-            | diverge => exact absurd rfl (hok .diverge)
             | cycle =>
               generalize hcq : childOf o c.ty (R.cycle, σ') = q at hok ⊢
               obtain ⟨ch, σ''⟩ := q
